@@ -31,6 +31,7 @@ func init() {
 		"bech-codeword": replayer(c03EvalBechCodeword),
 		"foreign":       replayer(c03EvalForeign),
 		"window":        replayer(c03EvalWindow),
+		"fingerprint":   replayer(c03EvalFP),
 	}})
 }
 
@@ -916,6 +917,7 @@ func runC03(c *mc.Ctx) {
 	runC03Foreign(c)
 	runC03Constants(c)
 	runC03Case(c)
+	runC03Fingerprint(c)
 }
 
 func pairFromIndex(pi, L int) (int, int) {
